@@ -88,7 +88,7 @@ func VH_C19_expand() {
 // The result-set life cycle with the producer goroutine, sequentialised (see
 // engine/threads.go): the consumer reads k rows and then closes the result
 // set; optionally one page read of the producer fails.
-//verif:bounds table t(a,b) of 1..2 rows (values symbolic); query "SELECT b, * FROM t"; consumer reads k = 0..n+1 rows then Close; optional one-shot page-read fault at any ordinal j; single consumer, producer run to completion under the consumer script
+//verif:bounds table t(a,b) of 1..2 rows (values symbolic); query "SELECT b, * FROM t"; caller context plain or cancellable-and-live; consumer reads k = 0..n+1 rows then Close; optional one-shot page-read fault at any ordinal j; single consumer, producer run to completion under the consumer script
 func VH_C19_stream() {
 	n := 1 + sdb.VerifChoice(2)
 	f := sdb.VerifNewFile(512)
@@ -115,7 +115,15 @@ func VH_C19_stream() {
 		f.Pager.FailAt = f.Pager.Reads + j
 	}
 	sdb.VerifConsumerScript(k, true)
-	rows, err := st.QueryContext(context.Background(), nil)
+	// the caller's context: not cancellable, or cancellable and still live while
+	// the result set is used (cancelled only at the very end)
+	ctx := context.Background()
+	callerCancel := func() {}
+	if sdb.VerifChoice(2) == 1 {
+		ctx, callerCancel = context.WithCancel(ctx)
+	}
+	defer callerCancel()
+	rows, err := st.QueryContext(ctx, nil)
 	if err != nil {
 		// the column expansion read the schema and met the fault
 		sdb.VerifAssert(faulty, "query preparation fails only because of the injected fault")
